@@ -1,6 +1,7 @@
 package main
 
 import (
+	"crypto/sha256"
 	"fmt"
 	"go/ast"
 	"go/importer"
@@ -10,6 +11,7 @@ import (
 	"maps"
 	"os"
 	"path/filepath"
+	"slices"
 	"strings"
 	"sync"
 
@@ -132,12 +134,34 @@ func parseFiles(lpkg *listedPackage, dir string, paths []string, mainPatch bool)
 	return files, nil
 }
 
+// pkgCacheID returns the key for the pkgCache entry of a package.
+//
+// The entry also holds what we learned about all of the package's dependencies,
+// including the obfuscated names of their types, which follow their action IDs.
+// The package's own action ID only follows the export data of its dependencies,
+// so it stays the same when a dependency is edited without changing its API,
+// such as a comment or a function body. The key must change in that case too,
+// or the package would be rebuilt with the names its dependencies used to have.
+func pkgCacheID(lpkg *listedPackage) [sha256.Size]byte {
+	lpkg.hasDep("") // fill allDeps
+	hasher := sha256.New()
+	hasher.Write(lpkg.GarbleActionID[:])
+	for _, path := range slices.Sorted(maps.Keys(lpkg.allDeps)) {
+		if dep, ok := sharedCache.ListedPackages.get(path); ok {
+			hasher.Write(dep.GarbleActionID[:])
+		}
+	}
+	var id [sha256.Size]byte
+	hasher.Sum(id[:0])
+	return id
+}
+
 func loadPkgCache(lpkg *listedPackage, pkg *types.Package, files []*ast.File, info *types.Info, ssaPkg *ssa.Package) (pkgCache, error) {
 	fsCache, err := openCache()
 	if err != nil {
 		return pkgCache{}, err
 	}
-	filename, _, err := fsCache.GetFile(lpkg.GarbleActionID)
+	filename, _, err := fsCache.GetFile(pkgCacheID(lpkg))
 	// Already in the cache; load it directly.
 	if err == nil {
 		data, err := os.ReadFile(filename)
@@ -185,7 +209,7 @@ func computePkgCache(fsCache *cache.Cache, lpkg *listedPackage, pkg *types.Packa
 			continue // nothing to load
 		}
 		if err := func() error { // function literal for the deferred close
-			if filename, _, err := fsCache.GetFile(lpkg.GarbleActionID); err == nil {
+			if filename, _, err := fsCache.GetFile(pkgCacheID(lpkg)); err == nil {
 				// Cache hit; merge its entries into computed. We decode into a
 				// fresh value rather than onto computed, as msgp replaces maps
 				// rather than merging into them.
@@ -242,7 +266,7 @@ func computePkgCache(fsCache *cache.Cache, lpkg *listedPackage, pkg *types.Packa
 	if err != nil {
 		return pkgCache{}, err
 	}
-	if err := fsCache.PutBytes(lpkg.GarbleActionID, data); err != nil {
+	if err := fsCache.PutBytes(pkgCacheID(lpkg), data); err != nil {
 		return pkgCache{}, err
 	}
 	return computed, nil
